@@ -1,7 +1,9 @@
-(* The scope the runner marks with `(th ..)`: the union of the two widest executable scopes of
-   the end-to-end C01 theorem (Properties/C01_matrix.v scope_all_sound and Properties/C01_d15.v
-   scope_quant_all_sound_noq).  Properties/C01_wide.v states the theorem for it. *)
-From TauModel Require Import Base Num Oracles Syntax Value Solver Rule Keys Optimiser Known Scope Scope2.
+(* The scope the runner marks with `(th ..)`: the union of the widest executable scopes of the
+   end-to-end C01 theorem (Properties/C01_matrix.v scope_all_sound, Properties/C01_sh0w.v
+   scope_quant_all_sound_w -- which contains Properties/C01_d15.v scope_quant_all_sound_noq --
+   and Properties/C01_nomatch.v scope_quant_all_sound_nm).  Properties/C01_wide.v states the
+   theorem for it. *)
+From TauModel Require Import Base Num Oracles Syntax Value Solver Rule Keys Optimiser Known Scope Scope2 Scope4 Scope5.
 
 Definition c01_scope_wide (o : oracles) (ord : hord) (sw : switches) (dt : detection) : bool :=
-  c01_scope_all o ord sw dt || c01_scope_quant_all_noq o ord sw dt.
+  c01_scope_all o ord sw dt || c01_scope_quant_all_w o ord sw dt || c01_scope_quant_all_nm o ord sw dt.
